@@ -337,6 +337,40 @@ theorem C08_asis_round (u : UdpSock) (p : Pkt) (caps : List Nat) (ho : u.isOpen 
   simp [ho, hb]
   cases u; simp_all
 
+/-- `k` rounds of "datagram `p` arrives, the reader takes it with buffers `caps`" in the pinned tree -/
+def UdpSock.asisRounds (p : Pkt) (caps : List Nat) : Nat → UdpSock → UdpSock
+  | 0, u => u
+  | k + 1, u => (((UdpSock.asisRounds p caps k u).incoming p).1.receiveFromAsIs caps).1
+
+/-- **The leak accumulates.** The 5-byte datagram read with a 2-byte buffer, `k` times over: the
+    queue is empty after every round and the account stands at `3·k` — as long as the datagram
+    is still let in. -/
+theorem C08_asis_rounds_accumulate (k : Nat) (hk : 3 * k ≤ 262113) :
+    UdpSock.asisRounds C08Ex.leakPkt [2] k C08Ex.leakSock = { C08Ex.leakSock with queueSize := 3 * k } := by
+  induction k with
+  | zero => rfl
+  | succ k ih =>
+    unfold UdpSock.asisRounds
+    rw [ih (by omega)]
+    rw [C08_asis_round _ C08Ex.leakPkt [2] rfl rfl rfl rfl rfl
+      (by show ¬ (3 * (k : Int)) + ((33 : Nat) : Int) > 262144; omega)]
+    show ({ C08Ex.leakSock with queueSize := 3 * (k : Int) + ((5 : Nat) : Int) - ((2 : Nat) : Int) } : UdpSock)
+      = { C08Ex.leakSock with queueSize := 3 * ((k + 1 : Nat) : Int) }
+    have : 3 * (k : Int) + ((5 : Nat) : Int) - ((2 : Nat) : Int) = 3 * ((k + 1 : Nat) : Int) := by omega
+    rw [this]
+
+/-- … and after 87371 such rounds the very same datagram is refused although the queue is empty:
+    in the pinned tree a reader that drains its queue with a short buffer eventually receives
+    nothing at all. -/
+theorem C08_asis_leak_starves_concrete :
+    (UdpSock.asisRounds C08Ex.leakPkt [2] 87371 C08Ex.leakSock).queue = []
+    ∧ (UdpSock.asisRounds C08Ex.leakPkt [2] 87371 C08Ex.leakSock).incoming C08Ex.leakPkt
+        = (UdpSock.asisRounds C08Ex.leakPkt [2] 87371 C08Ex.leakSock, []) := by
+  rw [C08_asis_rounds_accumulate 87371 (by decide)]
+  refine ⟨rfl, ?_⟩
+  unfold UdpSock.incoming
+  rw [if_pos (by decide)]
+
 /-- **… until a datagram is refused by a socket whose queue is empty.** With an account that
     has leaked up to the limit, `incoming_packet` drops a datagram although nothing is queued —
     in the pinned tree such states are reachable by `C08_asis_round`; in the repaired model
